@@ -29,7 +29,7 @@ man = dict(
     ),
     engines=[dict(name='vlib', path='/verif/vlib', serves_properties=sorted(CHECKS), kind_free_text='runtime monitors: reference-model oracles, bounds-sanitized numba build, canaries, heap poisoning, prange region recorder, differential/metamorphic drivers')],
     checks=[CHECKS[k] for k in sorted(CHECKS)],
-    notes='See DESIGN.md. Exit 0 held / 1 VIOLATION / 2 INCONCLUSIVE. Known findings: known_findings.txt.',
+    notes='See DESIGN.md. Exit 0 held / 1 VIOLATION / 2 INCONCLUSIVE. Known findings: known_findings.txt. Every evidence file also records which statements of the anchored interpreted code the run reached (coverage.statement_reach).',
     not_applicable=[dict(property_id=k, reason=v) for k, v in sorted(NOT_APPLICABLE.items())],
 )
 json.dump(man, open(os.path.join(HERE, 'MANIFEST.json'), 'w'), indent=1)
